@@ -108,6 +108,10 @@ func check(run *report.Run, spec *rules.PropSpec, repo, verif, tier string) (cod
 	run.FuncsAnalysed = nf
 	run.Extra["packages_analysed"] = len(p.Repo)
 	run.Extra["functions_in_scope"] = nf
+	for _, n := range p.Normalised {
+		run.Notes = append(run.Notes, "normalised: "+n)
+		fmt.Fprintln(os.Stderr, "normalised:", n)
+	}
 	ctx := rules.NewCtx(p, run, tier)
 	for _, r := range spec.Rules {
 		r.Run(ctx)
